@@ -82,8 +82,7 @@ CAT = {
                        (D, "w", None), (F, "w", None)],
     "ParticleSolution_t": [(A, "u", None), (D, "w", None), (U, "w", None)],
     "ParticleCoordinates_t": [(D, "w", None), (U, "w", None)],
-    # reachable through goto, but cg_delete_node has no block for it (driven by a probe only)
-    "ParticleIterativeData_t": [(D, "w", None), (U, "w", None)],
+    "ParticleIterativeData_t": [(A, "w", None), (D, "w", None), (U, "w", None)],
     # single-child containers (created by mk)
     "BaseIterativeData_t": [(A, "w", None), (D, "w", None), (U, "w", None)],
     "ZoneIterativeData_t": [(A, "w", None), (D, "w", None), (U, "w", None)],
@@ -105,6 +104,7 @@ CAT = {
 MK = [
     ("biter", None, "CGNSBase_t", [("BaseIterativeData", "BaseIterativeData_t")]),
     ("ziter", None, "Zone_t", [("ZoneIterativeData", "ZoneIterativeData_t")]),
+    ("piter", None, "ParticleZone_t", [("ParticleIterativeData", "ParticleIterativeData_t")]),
     ("state", None, "CGNSBase_t", [("ReferenceState", "ReferenceState_t")]),
     ("state", None, "Zone_t", [("ReferenceState", "ReferenceState_t")]),
     ("state", None, "ZoneBC_t", [("ReferenceState", "ReferenceState_t")]),
@@ -138,7 +138,7 @@ def join(path, name):
 
 
 # triggers of defects still present in /repo (set by the probes at the start of a run): the random histories avoid them
-AVOID = {"afn_overwrite": False, "pzone_integral": False}
+AVOID = {"afn_overwrite": False, "pzone_integral": False, "pit": False}
 
 
 def kinds_at(path, pl):
@@ -528,7 +528,8 @@ class Gen:
         path, pl = pos[0]
         if self.rng.random() < 0.25:
             cands = [m for m in MK if m[2] == pl and (path, m[0], m[1]) not in self.mk_done
-                     and not (m[0] in ("ziter",) and "BaseIterativeData" not in self.ref.nodes["/B"]["names"])]
+                     and not (m[0] in ("ziter", "piter") and "BaseIterativeData" not in self.ref.nodes["/B"]["names"])
+                     and not (m[0] == "piter" and AVOID["pit"])]
             if cands:
                 what, arg, _, chain = self.rng.choice(cands)
                 self.mk_done.add((path, what, arg))
@@ -716,9 +717,10 @@ def route_to(pl):
     for lab, r in routes.items():
         _ROUTES[lab] = r
     # ziter needs a BaseIterativeData_t first
-    if "ZoneIterativeData_t" in _ROUTES:
-        biter = [m for m in MK if m[0] == "biter"][0]
-        _ROUTES["ZoneIterativeData_t"] = [("mkbase", biter)] + _ROUTES["ZoneIterativeData_t"]
+    biter = [m for m in MK if m[0] == "biter"][0]
+    for lab in ("ZoneIterativeData_t", "ParticleIterativeData_t"):         # read back only when the base has a BaseIterativeData_t
+        if lab in _ROUTES:
+            _ROUTES[lab] = [("mkbase", biter)] + _ROUTES[lab]
     return _ROUTES.get(pl)
 
 
@@ -873,7 +875,7 @@ def run(ck):
     covered = {}
     work = ck.work
     state = {"n": 0, "hard": 0}
-    AVOID["afn_overwrite"] = AVOID["pzone_integral"] = False
+    AVOID["afn_overwrite"] = AVOID["pzone_integral"] = AVOID["pit"] = False
     reported = set()
 
     def finding(key, replay_dict):
@@ -911,7 +913,7 @@ def run(ck):
                           "writers_not_storing_the_node_id": tables["bad_nrow"], "bad_dblock": tables["bad_dblock"],
                           "bad_wrow": tables["bad_wrow"]}
     # the catalogue must stay inside what the theorems cover: every group the harness drives is a sound kind of its parent
-    outside = [(pl, k[0]) for pl in CAT for k in CAT[pl] if pl in tables["kinds"] and k[0] not in tables["kinds"][pl] and pl != PIT]
+    outside = [(pl, k[0]) for pl in CAT for k in CAT[pl] if pl in tables["kinds"] and k[0] not in tables["kinds"][pl]]
     ck.extra["catalogue_groups_outside_sound_kinds"] = outside
 
     def exec_case(ops, backend, compress, name):
@@ -956,6 +958,35 @@ def run(ck):
         ck.case(None, sample=dict({"kind": "probe " + kind, "backend": backend}, **(sample_extra or {})))
         return fails, lines, out, outcome
 
+    # ---- corpus first: the witnesses of the defects this property found and /repo repaired (corpus/C04/*.json, one per
+    # original finding key).  They must PASS now; a regression re-fires VIOLATION under the original key, and the random
+    # histories then avoid the trigger so that the rest of the run still says something.
+    cdir = os.path.join(vlib.ROOT, "corpus", "C04")
+    corpus_seen = []
+    for f in sorted(os.listdir(cdir)) if os.path.isdir(cdir) else []:
+        if not f.endswith(".json"):
+            continue
+        c = json.load(open(os.path.join(cdir, f)))
+        ops = deser(c["ops"])
+        for backend in c.get("backends", ["adf", "hdf5"]):
+            fails, lines, out, outcome = probe(ops, backend, "corpus " + c["key"])
+            if fails and order_by_design(ops, fails) is not None:
+                for key in sorted(order_by_design(ops, fails)):
+                    finding(key, {"ops": ser(ops), "history": [lines_of_op(o) for o in ops], "backend": backend, "failures": fails[:2]})
+                fails = []
+            corpus_seen.append({"key": c["key"], "backend": backend, "passes": not fails})
+            if fails:
+                if c["key"].startswith("multifam"):
+                    AVOID["afn_overwrite"] = True
+                if c["key"].startswith("pzone"):
+                    AVOID["pzone_integral"] = True
+                if c["key"].startswith("delete-no-dispatch-block:"):
+                    AVOID["pit"] = True
+                finding(c["key"], {"ops": ser(ops), "history": [lines_of_op(o) for o in ops], "backend": backend, "compress": 0,
+                                   "outcome": outcome, "failures": fails[:3], "regression_of": c.get("fixed_by"), "what": c.get("what")})
+            elif outcome == "ok":
+                correspond(ops, backend, 0, lines, out, None)
+    ck.extra["corpus"] = corpus_seen
     # ---- probes: what the unchanged tree does by design or does wrong; each goes through ck.finding with a stable key
     for backend in ("adf", "hdf5"):
         # a write colliding with a sibling of another label: the session keeps a phantom entry
@@ -970,34 +1001,9 @@ def run(ck):
                        {"witness": "C04_failed_write_refuted", "ops": ser(ops), "history": [lines_of_op(o) for o in ops], "backend": backend, "failures": ph[:2]})
         elif fails:
             report(ops, backend, 0, fails, "probe failed write")
-        # AdditionalFamilyName_t: overwrite in the session that created the entry
-        ops = [("w", "/B", "CGNSBase_t", "Zone_t", "Z0", 5), ("w", "/B/Z0", "Zone_t", F, "Afn1", 1), ("w", "/B/Z0", "Zone_t", F, "Afn2", 2),
-               ("w", "/B/Z0", "Zone_t", F, "Afn1", 3)]
-        fails, lines, out, outcome = probe(ops, backend, "multifam overwrite")
-        if fails and order_by_design(ops, fails) is not None:
-            fails = []              # the overwrite works; only the by-design index difference is left (reported below)
-        if fails:
-            at_overwrite = outcome != "ok" or all(f.get("op") == 3 or (f.get("when") or [None, None])[1] in (3, 4) for f in fails)
-            if at_overwrite:
-                AVOID["afn_overwrite"] = True
-                finding("multifam-overwrite-stale-id", {"ops": ser(ops), "history": [lines_of_op(o) for o in ops], "backend": backend,
-                                                           "outcome": outcome, "failures": fails[:2]})
-            else:
-                report(ops, backend, 0, fails, "probe multifam overwrite")
-        # two IntegralData_t (with descriptors) under a particle zone: cg_close frees the first one twice
-        ops = [("w", "/B", "CGNSBase_t", "ParticleZone_t", "PZ0", 4), ("w", "/B/PZ0", "ParticleZone_t", I, "Int1", 1),
-               ("w", "/B/PZ0", "ParticleZone_t", I, "Int2", 2)]
-        fails, lines, out, outcome = probe(ops, backend, "particle zone integrals")
-        if fails:
-            if outcome.startswith("asan:") and "cgi_free" in outcome:
-                AVOID["pzone_integral"] = True
-                finding("pzone-close-frees-first-integral-repeatedly",
-                           {"ops": ser(ops), "history": [lines_of_op(o) for o in ops], "backend": backend, "outcome": outcome})
-            else:
-                report(ops, backend, 0, fails, "probe particle zone integrals")
     static_broken = []          # what the tables flag without (yet) a failing input: searched for below, reported at the end
     for fn, how in tables["bad_nrow"]:
-        if not (fn == "cg_multifam_write" and AVOID["afn_overwrite"]):
+        if True:
             static_broken.append({"broken_obligation": "a node-context writer does not store the id of the node it creates",
                                   "function": fn, "how": how, "table": "Gen_C04.ctx_writers / Mirror.bad_nrows"})
 
@@ -1122,7 +1128,7 @@ def run(ck):
         return fails
 
     # ---- (a) one focused history per sibling group
-    targets = [(pl, k[0]) for pl in sorted(CAT) for k in CAT[pl] if pl not in ("CGNSTree_t", PIT)]
+    targets = [(pl, k[0]) for pl in sorted(CAT) for k in CAT[pl] if pl != "CGNSTree_t" and not (pl == PIT and AVOID["pit"])]
     stop = state["hard"] > 0
     combos = [("adf", 0), ("hdf5", 0), ("adf", 1), ("hdf5", -1), ("adf", -1), ("hdf5", 1)]
     for ti, target in enumerate(targets):
@@ -1149,7 +1155,7 @@ def run(ck):
         if r is None:
             continue
         ops, path = r
-        if m[0] == "ziter" and not any(o[0] == "mk" and o[2] == "biter" for o in ops):
+        if m[0] in ("ziter", "piter") and not any(o[0] == "mk" and o[2] == "biter" for o in ops):
             ops = [("mk", "/B", "biter", None, [("BaseIterativeData", "BaseIterativeData_t")])] + ops
         ops = ops + [("mk", path, m[0], m[1], m[3])]
         inner = path
